@@ -209,6 +209,38 @@ def scram(prog, run):
                       'a server-final message with a wrong signature still yields a result', cfgx.describe_path(fn, reach[fn.pos(bad[0])[0]]))
     else:
         run.ok(r2, fn.loc(), 'SCRAM final step: wrong signature => nullopt')
+    # ---- what isComplete() reports (the managers accept a <success/> without data only behind it, R3): a flag that becomes true nowhere but behind the
+    # matching signature - not the step counter, which is advanced as soon as the client-final message has been produced
+    r7 = run.rule('C06.R7', 'QXmppSaslClientScram::isComplete() reports a boolean member that is set to true only in the final step and only where the server signature '
+                            'matched: it is what stands between an early <success/> (sent before the server proved that it knows the password) and a reported login', floor=1)
+    run.instance(r7)
+    ic = [g for g in prog.fns.values() if g.qname == 'QXmppSaslClientScram::isComplete' and g.entry is not None]
+    if not ic:
+        raise AnalysisBroken('C06.R7: QXmppSaslClientScram::isComplete has no body in the analysed units')
+    rets = [ic[0].nodes[ic[0].skip(r['e'])] for _, r in ic[0].returns() if 'e' in r]
+    flag = rets[0].get('f') if len(rets) == 1 and rets[0]['k'] == 'mem' and (rets[0].get('t') or '').replace('const ', '') == 'bool' else None
+    if flag is None:
+        run.violation(r7, 'QXmppSaslClientScram::isComplete#not-the-verification-flag', ic[0].loc(),
+                      'isComplete() reports %s instead of a flag set by the signature check: it can be true before the server-final message has been verified, and a bare '
+                      '<success/> right after the client-final message is then taken for a login' % (ic[0].fmt(ic[0].returns().__next__()[0], inline=False)[:60] if rets else '?'))
+    else:
+        sets = [i for i, n in fn.all_nodes('assign') if fn.nodes[fn.skip(n['l'])].get('f') == flag and fn.const_value(n['r']) == ('bool', True)]
+        others = [(g, i) for g in prog.fns.values() if g.entry is not None and g.id != fn.id and '/src/' in g.file
+                  for i, n in g.all_nodes('assign') if g.nodes[g.skip(n['l'])].get('f') == flag and g.const_value(n['r']) != ('bool', False)]
+        early = []
+        for step in (0, 1):
+            evs = cfgx.Evaluator(fn, {}, custom=step_binding(fn, step))
+            rch = cfgx.reach_with_paths(fn, lambda f, c, st, evs=evs: evs.ev(c, st))
+            early += [i for i in sets if fn.pos(i) and fn.pos(i)[0] in rch]
+        wrong = [i for i in sets if fn.pos(i) and fn.pos(i)[0] in reach]          # reachable in step 2 with a wrong signature
+        if not sets:
+            run.violation(r7, 'QXmppSaslClientScram::isComplete#flag-never-set', ic[0].loc(), 'the member isComplete() reports is never set')
+        elif others or early or wrong:
+            site = others[0][0].loc(others[0][1]) if others else fn.loc((early or wrong)[0])
+            run.violation(r7, 'QXmppSaslClientScram::isComplete#flag-set-without-verification', site,
+                          'the member isComplete() reports becomes true %s' % ('outside respond()' if others else 'before the final step' if early else 'although the signature is wrong'))
+        else:
+            run.ok(r7, ic[0].loc(), 'isComplete() == %s, set only behind the matching server signature' % flag.split('::')[-1])
     _steps(prog, run, r2, fn, 'QXmppSaslClientScram')
 
 
